@@ -184,6 +184,8 @@ func runC16(p *core.Program, r *core.Report) {
 	r.Rule("C16.zip", "compress iff Status==0 && len >= min; ZIPPED exactly when compressed; fresh pack per batch", 2)
 	r.Rule("C16.triggers", "size limit tested after every append; wait limit once a batch is open; run() flushes on stop and on idle", 2)
 	r.Rule("C16.decodable", "batch body is the concatenation of WritePack encodings of the records", 2)
+	r.Rule("C16.queue", "the queue the sender drains keeps its contract (C11's put/get/timeout/wake-up/FIFO rules on util/queue.RequestQueue): the timed get gives up when its time is over, so a partial batch is flushed by the wait limit", 8)
+	importQueueRules(p, r, "C16.queue")
 	c16Defaults(p, r)
 	for _, name := range []string{"Append", "sendAndClear", "SendDirect", "doZip", "run"} {
 		if zipMethod(p, name) == nil {
